@@ -1,3 +1,6 @@
+pub mod strord {
+use vstd::prelude::*;
+use std::cmp::Ordering;
 // ---- prelude/strord.rs : the order of `str` (trusted base: A-STR-ORD) and proved facts about it ----
 // `<str as Ord>::cmp` compares the UTF-8 bytes lexicographically; UTF-8 preserves code point order, so this is
 // the lexicographic order of the `char` sequences by scalar value. vstd leaves `cmp_spec` of `str` uninterpreted;
@@ -22,7 +25,7 @@ pub open spec fn seq_cmp(a: Seq<char>, b: Seq<char>) -> Ordering
 
 pub broadcast axiom fn axiom_str_cmp(a: &str, b: &str)
     ensures
-        #[trigger] a.cmp_spec(b) == seq_cmp(a@, b@),
+        #[trigger] <str as vstd::std_specs::cmp::OrdSpec>::cmp_spec(a, b) == seq_cmp(a@, b@),
 ;
 
 pub broadcast axiom fn axiom_str_obeys_cmp()
@@ -30,9 +33,21 @@ pub broadcast axiom fn axiom_str_obeys_cmp()
         #[trigger] <str as vstd::std_specs::cmp::OrdSpec>::obeys_cmp_spec(),
 ;
 
+pub broadcast axiom fn axiom_string_cmp(a: &String, b: &String)
+    ensures
+        #[trigger] <String as vstd::std_specs::cmp::OrdSpec>::cmp_spec(a, b) == seq_cmp(a@, b@),
+;
+
+pub broadcast axiom fn axiom_string_obeys_cmp()
+    ensures
+        #[trigger] <String as vstd::std_specs::cmp::OrdSpec>::obeys_cmp_spec(),
+;
+
 pub broadcast group group_strord {
     axiom_str_cmp,
     axiom_str_obeys_cmp,
+    axiom_string_cmp,
+    axiom_string_obeys_cmp,
 }
 
 pub proof fn lemma_seq_cmp_eq(a: Seq<char>, b: Seq<char>)
@@ -84,3 +99,5 @@ pub proof fn lemma_seq_cmp_trans(a: Seq<char>, b: Seq<char>, c: Seq<char>)
         }
     }
 }
+}
+pub use strord::*;
